@@ -1,114 +1,8 @@
 /-
-Auxiliary invariants for C15: a blocked task has no pending cancellation, and the ghost
-accounting of interrupts (each accepted task_throw id is pending in the ready queue or delivered,
+Auxiliary invariant for C15: the ghost accounting of interrupts (each accepted task_throw id is pending in the ready queue or delivered,
 never both, never twice, and only for its target).
 -/
 import Asynkit.Lemmas.C09
-
-namespace Asynkit.Kernel
-
-/-- a task blocked on a pending future never has `_must_cancel` set -/
-def InvMC (s : State) : Prop := ∀ t, isBlocked s t = true → (s.tasks t).mustCancel = false
-
-theorem invMC_init : InvMC init := by intro t; simp [init, isBlocked]
-
-theorem completeFut_invMC {s : State} (h : InvMC s) (f : FutId) (st : FutSt) (hst : st ≠ .pending) :
-    InvMC (completeFut s f st) := by
-  unfold completeFut InvMC at *
-  split
-  · intro t; simp only [isBlocked] at *; have := h t; grind
-  · exact h
-
-theorem cancelTask_invMC {s : State} (h : InvMC s) (t : TaskId) : InvMC (cancelTask s t) := by
-  unfold cancelTask
-  simp only
-  split
-  · exact h
-  · split
-    · split
-      · exact completeFut_invMC h _ _ (by decide)
-      · intro u; have := h u; simp only [isBlocked, setTask] at *; grind
-    · intro u; have := h u; simp only [isBlocked, setTask] at *; grind
-
-theorem runStep_invMC {s : State} (h : InvMC s) (t : TaskId) (e : Option Exc) :
-    InvMC (runStep s t e).1 := by
-  unfold runStep
-  simp only
-  split
-  · exact h
-  · intro u; have := h u; simp only [isBlocked, setTask] at *; grind
-
-theorem step_invMC {s : State} (h : InvMC s) (e : Event) : InvMC (step s e).1 := by
-  cases e with
-  | create py => intro u; have := h u; simp only [step, isBlocked, setTask] at *; grind
-  | newFut => exact h
-  | setResult f => simp only [step]; split; exact completeFut_invMC h _ _ (by decide); exact h
-  | setExc f => simp only [step]; split; exact completeFut_invMC h _ _ (by decide); exact h
-  | cancelFut f => simp only [step]; split; exact completeFut_invMC h _ _ (by decide); exact h
-  | addCb f k =>
-    simp only [step]; split
-    · intro u; have := h u; simp only [isBlocked, setFut] at *; grind
-    · exact h
-  | cancelTask t => simp only [step]; split; exact h; exact cancelTask_invMC h t
-  | callSoonOther t => exact h
-  | callSoonCb k => exact h
-  | taskThrow t cd =>
-    simp only [step, taskThrow]
-    split
-    · exact h
-    · split
-      · intro u; have := h u; simp only [throwFin, isBlocked, setTask, setFut] at *; grind
-      · split
-        · exact h
-        · split
-          · split <;> exact h
-          · intro u; have := h u; simp only [throwFin, isBlocked, setTask] at *; grind
-  | reinsert t pos => simp only [step, reinsert]; split <;> exact h
-  | begin =>
-    simp only [step, beginHandle]
-    split
-    · rename_i h0 rest _ _
-      have h' : InvMC { s with ready := rest } := h
-      split
-      · exact h'
-      · exact cancelTask_invMC h' _
-      · exact runStep_invMC h' _ _
-      · split
-        · exact h'
-        · exact runStep_invMC h' _ _
-        · exact runStep_invMC h' _ _
-        · exact runStep_invMC h' _ _
-    · exact h
-  | endStep a =>
-    simp only [step]
-    split
-    · rename_i t hc
-      cases a with
-      | yieldNone => exact h
-      | yieldErr => exact h
-      | finish => intro u; have := h u; simp only [endStep, isBlocked, setTask] at *; grind
-      | yieldFut f =>
-        simp only [endStep]
-        split
-        · split
-          · rw [completeFut_ctx]
-            have hb : InvMC (blockOn s t f false) := by
-              intro u; have := h u; simp only [blockOn, isBlocked, setTask, setFut] at *; grind
-            exact completeFut_invMC hb f _ (by decide)
-          · intro u; have := h u; simp only [isBlocked, setTask, setFut] at *; grind
-        · intro u; have := h u; simp only [isBlocked, setTask, callSoon] at *; grind
-    · exact h
-  | pause => simp only [step]; split <;> exact h
-  | resume => simp only [step]; split <;> exact h
-
-theorem reachable_invMC {s : State} (h : Reachable s) : InvMC s := by
-  obtain ⟨evs, rfl⟩ := h
-  suffices ∀ s0, InvMC s0 → InvMC (run s0 evs) from this _ invMC_init
-  induction evs with
-  | nil => intro s0 h0; exact h0
-  | cons e es ih => intro s0 h0; exact ih _ (step_invMC h0 e)
-
-end Asynkit.Kernel
 
 namespace Asynkit.Kernel
 
@@ -335,6 +229,7 @@ theorem step_ghost {s : State} (hg : Ghost s) (e : Event) : Ghost (step s e).1 :
     simp only [step]; split
     · exact triv _ rfl rfl rfl (Nat.le_refl _)
     · exact app _ (.cb k) rfl (by intro id; rfl) rfl rfl (Nat.le_refl _)
+  | setNoCancel f b => exact triv _ rfl rfl rfl (Nat.le_refl _)
   | cancelTask t => simp only [step]; split; exact hg; exact cancelTask_ghost hg t
   | callSoonOther t => exact app _ (.otherBound t) rfl (by intro id; rfl) rfl rfl (Nat.le_refl _)
   | callSoonCb k => exact app _ (.cb k) rfl (by intro id; rfl) rfl rfl (Nat.le_refl _)
@@ -343,6 +238,8 @@ theorem step_ghost {s : State} (hg : Ghost s) (e : Event) : Ghost (step s e).1 :
     split
     · exact triv _ rfl rfl rfl (Nat.le_succ _)
     · split
+      · exact triv _ rfl rfl rfl (Nat.le_succ _)
+      split
       · exact throwFin_ghost hg t cd (by intro id; simp [PI, setFut]) (by simp [setFut]) rfl rfl rfl
       · split
         · exact triv _ rfl rfl rfl (Nat.le_succ _)
